@@ -10,6 +10,7 @@ import Driver.C04
 import Driver.C11
 import Driver.C14
 import Driver.C17
+import Driver.C19
 /-!
 Line-protocol driver.  Reads one JSON object per line on stdin, each with a field `p`
 naming the property slice and an `id`; writes one JSON object per line with the same `id`
@@ -30,6 +31,7 @@ def dispatch (j : Json) : Json :=
   | "C11" => Driver.C11.handle j
   | "C14" => Driver.C14.handle j
   | "C17" => Driver.C17.handle j
+  | "C19" => Driver.C19.handle j
   | "C08" => Driver.C09.handle j
   | "C01" => Driver.C03.handle j
   | "C02" => Driver.C03.handle j
